@@ -351,6 +351,8 @@ def correspondence(R, ctx):
     th = ctx['thorough']
     bad = []
     bad += corr_qc(R, tn, rng, th)
+    bad += corr_forms(R, tn, rng, th)
+    bad += corr_edges(R, tn, rng, th)
     bad += corr_float(R, tn, rng, th)
     return bad
 
@@ -428,6 +430,217 @@ def corr_qc(R, tn, rng, th):
                 add('func_diff_matrix', f'f_diff {C.qlit(a)} {C.qlit(b)} {n} {m}', impl_flat(run, 'mats'),
                     [n, str(a), str(b), m])
     return approx_corr(R, 'qc_exact_nodes', HEADER_Q, items, q_vals, 1e-10, 12, dist)
+
+
+# ---------------------------------------------------------------------------------------------
+# argument-form families and box-edge families (Qc instance, exact)
+# ---------------------------------------------------------------------------------------------
+Z_FORMS = [('int', lambda v: int(v)), ('np.int64', lambda v: np.int64(v)), ('float', lambda v: float(v)),
+           ('np.float32', lambda v: np.float32(v))]
+
+
+def ab_forms(a, b):
+    """the same box (integer bounds) in the forms teneva.grid_prep_opts accepts"""
+    out = [('list_int', [int(v) for v in a], [int(v) for v in b]),
+           ('list_float', [float(v) for v in a], [float(v) for v in b]),
+           ('array_int', np.array([int(v) for v in a]), np.array([int(v) for v in b])),
+           ('array_float', np.array(a, dtype=float), np.array(b, dtype=float)),
+           ('array_float32', np.array(a, dtype=np.float32), np.array(b, dtype=np.float32))]
+    if len(set(a)) == 1 and len(set(b)) == 1:
+        # (a NumPy integer scalar, np.int64(-1), is rejected by grid_prep_opt with TypeError on the unchanged tree: only
+        #  int / float (hence np.float64) scalars, lists and arrays are documented; not part of the families)
+        out += [('scalar_int', int(a[0]), int(b[0])), ('scalar_float', float(a[0]), float(b[0])),
+                ('scalar_np_float64', np.float64(a[0]), np.float64(b[0]))]
+    return out
+
+
+def corr_forms(R, tn, rng, th):
+    """every routine called with the SAME mathematical arguments in different Python / NumPy forms (fill value z as
+    int / np.int64 / float / np.float32; points as list / int array / float32 array / single point; bounds as int or
+    float scalars, lists, arrays; integer-dtype coefficient cores and value tensors; m as int / float / list / array).
+    The model is evaluated once on the exact values; every form must give that result as float64."""
+    items = []
+    dist = dict(kinds={}, forms={}, note='Qc instance; integer cores in [-3,3]; integer box bounds; integer-valued and '
+                'dyadic (float32-exact) points inside and outside; result must be the float64 value of the model '
+                '(an integer-typed / truncated result is a mismatch)')
+
+    def add(kind, form, coq, thunk, inp, rk='array'):
+        dist['kinds'][kind] = dist['kinds'].get(kind, 0) + 1
+        dist['forms'][form] = dist['forms'].get(form, 0) + 1
+        impl = impl_flat(thunk, rk)
+        items.append(dict(coq=coq, impl=impl, input=[kind, form] + inp))
+
+    for rep in range(10 if th else 3):
+        d = rng.choice([2, 3]) if rep else 2
+        ns = [rng.choice([2, 3, 4]) for _ in range(d)]
+        Ai = [np.array(G, dtype=np.int64) for G in rand_tt(rng, ns, 2)]
+        Af = tt_float(Ai)
+        Ad_i = np.array(dense_of([np.array(G, dtype=object) for G in Ai]).tolist(), dtype=np.int64).reshape(ns)
+        Ad_f = Ad_i.astype(float)
+        same = rep % 2 == 0
+        if same:
+            lo, hi = rng.randint(-3, 0), rng.randint(1, 4)
+            a, b = [lo] * d, [hi] * d
+        else:
+            a = [rng.randint(-3, 0) for _ in range(d)]
+            b = [rng.randint(1, 4) for _ in range(d)]
+        qa, qb = qlist(a), qlist(b)
+        tl = tens_lit(np.array(Ad_i.tolist(), dtype=object), C.qlit)
+        desc = [ns, [G.tolist() for G in Ai], a, b]
+        # points: dyadic inside, integer-valued inside, outside
+        Xd = [[Fr(ak) + (bk - ak) * Fr(rng.randint(1, 7), 8) for ak, bk in zip(a, b)] for _ in range(3)]
+        Xi = [[Fr(rng.randint(ak, bk)) for ak, bk in zip(a, b)] for _ in range(2)]
+        xo = [Fr(rng.randint(ak, bk)) for ak, bk in zip(a, b)]
+        k = rng.randrange(d)
+        xo[k] = Fr(rng.choice([a[k] - rng.randint(1, 3), b[k] + rng.randint(1, 3)]))
+        Xall = Xd + Xi + [xo]
+        Xint = Xi + [xo]
+        zv = rng.choice([-1, 2, 0, 5])
+        zs = str(zv)
+
+        def coq_get(X, z):
+            return f'f_get {qlist2(X)} {qtt(Ai)} {qa} {qb} {C.qlit(Fr(z))} true'
+
+        def coq_getf(X, z):
+            return f'f_get_full {qlist2(X)} {natl(ns)} {tl} {qa} {qb} {C.qlit(Fr(z))} true'
+        Xf = np.array([fl(x) for x in Xall])
+        af, bf = fl(a), fl(b)
+        # (1) fill value forms
+        for fname, conv in Z_FORMS:
+            z = Fr(5, 2) if fname == 'np.float32' and rep % 2 else Fr(zv)
+            add('func_get', 'z:' + fname, coq_get(Xall, z), lambda: tn.func_get(Xf, Af, af, bf, z=conv(z)),
+                desc + [[[str(v) for v in x] for x in Xall], str(z)])
+            add('func_get_full', 'z:' + fname, coq_getf(Xall, z), lambda: tn.func_get_full(Xf, Ad_f, af, bf, z=conv(z)),
+                desc + [[[str(v) for v in x] for x in Xall], str(z)])
+            add('func_get', 'z:' + fname + ',single_point', coq_get([Xall[0]], z),
+                lambda: tn.func_get(fl(Xall[0]), Af, af, bf, z=conv(z)), desc + [[str(v) for v in Xall[0]], str(z)])
+        # (2) point forms
+        pin = desc + [[[str(v) for v in x] for x in Xall], zs]
+        add('func_get', 'X:list', coq_get(Xall, zv), lambda: tn.func_get([fl(x) for x in Xall], Af, af, bf, z=zv), pin)
+        add('func_get', 'X:float32', coq_get(Xall, zv), lambda: tn.func_get(Xf.astype(np.float32), Af, af, bf, z=zv), pin)
+        add('func_get_full', 'X:float32', coq_getf(Xall, zv),
+            lambda: tn.func_get_full(Xf.astype(np.float32), Ad_f, af, bf, z=zv), pin)
+        pint = desc + [[[str(v) for v in x] for x in Xint], zs]
+        Xia = np.array([[int(v) for v in x] for x in Xint], dtype=np.int64)
+        add('func_get', 'X:int_array', coq_get(Xint, zv), lambda: tn.func_get(Xia, Af, af, bf, z=zv), pint)
+        add('func_get', 'X:int_list', coq_get(Xint, zv), lambda: tn.func_get(Xia.tolist(), Af, af, bf, z=zv), pint)
+        add('func_get_full', 'X:int_array', coq_getf(Xint, zv), lambda: tn.func_get_full(Xia, Ad_f, af, bf, z=zv), pint)
+        add('func_get', 'X:single_list', coq_get([Xall[1]], zv), lambda: tn.func_get(fl(Xall[1]), Af, af, bf, z=zv), pin)
+        add('func_get', 'X:single_array', coq_get([xo], zv), lambda: tn.func_get(np.array(fl(xo)), Af, af, bf, z=zv), pin)
+        add('func_get', 'X:single_int_array', coq_get([Xint[0]], zv),
+            lambda: tn.func_get(np.array([int(v) for v in Xint[0]]), Af, af, bf, z=zv), pint)
+        # (3) bound forms
+        sb = [max(abs(x), abs(y)) for x, y in zip(a, b)] if not same else [max(abs(a[0]), abs(b[0]))] * d
+        sa = [-v for v in sb]
+        for fname, fa, fb in ab_forms(a, b):
+            add('func_get', 'ab:' + fname, coq_get(Xall, zv), lambda: tn.func_get(Xf, Af, fa, fb, z=zv), pin)
+            add('func_get_full', 'ab:' + fname, coq_getf(Xall, zv), lambda: tn.func_get_full(Xf, Ad_f, fa, fb, z=zv), pin)
+            add('func_sum', 'ab:' + fname, f'f_sum {qtt(Ai)} {qa} {qb}', lambda: tn.func_sum(Af, fa, fb), desc)
+        for fname, fa, fb in ab_forms(sa, sb):
+            add('func_sum_full', 'ab:' + fname, f'f_sum_full {natl(ns)} {tl} {qlist(sa)} {qlist(sb)}',
+                lambda: tn.func_sum_full(Ad_f, fa, fb), desc + [sa, sb])
+        # (4) integer-dtype cores / arrays
+        add('func_get', 'cores:int64', coq_get(Xall, zv), lambda: tn.func_get(Xf, Ai, af, bf, z=zv), pin)
+        add('func_get', 'cores:int64,z:int,X:int_array', coq_get(Xint, zv), lambda: tn.func_get(Xia, Ai, a, b, z=int(zv)), pint)
+        add('func_get_full', 'cores:int64', coq_getf(Xall, zv), lambda: tn.func_get_full(Xf, Ad_i, af, bf, z=zv), pin)
+        add('func_get_full', 'cores:int64,z:int,X:int_array', coq_getf(Xint, zv),
+            lambda: tn.func_get_full(Xia, Ad_i, np.array(a), np.array(b), z=int(zv)), pint)
+        add('func_int', 'cores:int64', f'f_int {qtt(Ai)}', lambda: tn.func_int(Ai), desc, 'tt')
+        add('func_int_full', 'cores:int64', f'f_int_full {natl(ns)} {tl}', lambda: tn.func_int_full(Ad_i), desc)
+        add('func_sum', 'cores:int64', f'f_sum {qtt(Ai)} {qa} {qb}', lambda: tn.func_sum(Ai, a, b), desc)
+        add('func_sum_full', 'cores:int64', f'f_sum_full {natl(ns)} {tl} {qlist(sa)} {qlist(sb)}',
+            lambda: tn.func_sum_full(Ad_i, sa, sb), desc + [sa, sb])
+        # (5) grid-size forms
+        m0 = rng.choice([2, 3, 4])
+        ms = [m0] * d
+        for fname, mv in [('int', m0), ('float', float(m0)), ('list', list(ms)),
+                          ('array', np.array(ms))]:
+            add('func_gets', 'm:' + fname, f'f_gets {qtt(Ai)} {optl(ms)}', lambda: tn.func_gets(Af, mv), desc + [ms], 'tt')
+            add('func_gets_full', 'm:' + fname, f'f_gets_full {natl(ns)} {tl} {natl(ms)}',
+                lambda: tn.func_gets_full(Ad_f, -1, 1, mv), desc + [ms])
+        add('func_gets', 'cores:int64', f'f_gets {qtt(Ai)} {optl(ms)}', lambda: tn.func_gets(Ai, ms), desc + [ms], 'tt')
+        add('func_gets_full', 'cores:int64', f'f_gets_full {natl(ns)} {tl} {natl(ms)}',
+            lambda: tn.func_gets_full(Ad_i, -1, 1, ms), desc + [ms])
+    return approx_corr(R, 'argument_forms', HEADER_Q, items, q_vals, 1e-10, 12, dist)
+
+
+EDGE_DISTS = [1e-300, 1e-100, 1e-50, 1e-20, 1e-12, 1e-10, 'ulp']
+
+
+def edge_boxes(rng, d):
+    """boxes for the edge family: a bound at 0 (so that tiny distances are representable), the unit box, generic,
+    tiny (width 2e-10, 1e-9) and huge boxes"""
+    fams = [('zero_lower', [0.0] * d, [rng.choice([1.0, 2.5, 0.5]) for _ in range(d)]),
+            ('zero_upper', [-rng.choice([1.0, 2.5, 0.5]) for _ in range(d)], [0.0] * d),
+            ('unit', [-1.0] * d, [1.0] * d),
+            ('generic', [rng.choice([-3.0, -1.5, 0.25]) for _ in range(d)], None),
+            ('tiny_2e-10', [0.0] * d, [2e-10] * d),
+            ('tiny_1e-9', [1.0] * d, [1.0 + 1e-9] * d),
+            ('tiny_mixed', [0.0] + [-1.0] * (d - 1), [1e-9] + [1.0] * (d - 1)),
+            ('huge', [-1e12] * d, [3e12] * d),
+            ('huge_pow2', [0.0] * d, [float(2 ** 40)] * d)]
+    out = []
+    for name, a, b in fams:
+        if b is None:
+            b = [ak + rng.choice([0.5, 2.0, 2.75]) for ak in a]
+        out.append((name, a, b))
+    return out
+
+
+def edge_points(rng, a, b, dists=EDGE_DISTS):
+    """(label, point) list: a few inside points, corners, and for every face points beyond it by the given distances.
+    All coordinates are the doubles the implementation receives (the model gets their exact rational values)."""
+    d = len(a)
+
+    def inside():
+        return [ak + (bk - ak) * rng.choice([0.125, 0.25, 0.375, 0.5, 0.625, 0.875]) for ak, bk in zip(a, b)]
+    P = [('in', inside()), ('in', inside()), ('corner', list(b)), ('corner', list(a))]
+    for k in range(d):
+        for side in (0, 1):
+            for dist in dists:
+                x = inside()
+                bound = (a, b)[side][k]
+                if dist == 'ulp':
+                    x[k] = float(np.nextafter(bound, np.inf if side else -np.inf))
+                else:
+                    x[k] = bound + dist if side else bound - dist
+                P.append((f'out{k}{"+" if side else "-"}{dist}', x))
+    return P
+
+
+def corr_edges(R, tn, rng, th):
+    """points just outside the box (1e-300 ... 1e-10, one ulp) and tiny / huge boxes, func_get and func_get_full against
+    the exact model (tolerance constant 1e-99 in Model/Func.v and Model/FuncFull.v)"""
+    items = []
+    dist = dict(boxes={}, labels={}, note='Qc instance on the exact rational values of the doubles passed; integer cores; '
+                'z = -29/4; distances beyond each face: ' + ', '.join(str(x) for x in EDGE_DISTS))
+    z = Fr(-29, 4)
+    for rep in range(3 if th else 1):
+        d = 2
+        ns = [rng.choice([2, 3, 4]) for _ in range(d)]
+        Ai = rand_tt(rng, ns, 2)
+        Af = tt_float(Ai)
+        Ad = np.array(dense_of(Ai).tolist(), dtype=float).reshape(ns)
+        tl = tens_lit(dense_of(Ai), C.qlit)
+        for name, a, b in edge_boxes(rng, d):
+            dist['boxes'][name] = dist['boxes'].get(name, 0) + 1
+            P = edge_points(rng, a, b)
+            for lab, _ in P:
+                key = lab[5:] if lab.startswith('out') else lab
+                dist['labels'][key] = dist['labels'].get(key, 0) + 1
+            X = [x for _, x in P]
+            Xq = [[Fr(v) for v in x] for x in X]
+            inp = [name, ns, [G.tolist() for G in Ai], [v.hex() for v in a], [v.hex() for v in b],
+                   [[v.hex() for v in x] for x in X], [lab for lab, _ in P]]
+            qa, qb = qlist(a), qlist(b)
+            items.append(dict(coq=f'f_get {qlist2(Xq)} {qtt(Ai)} {qa} {qb} {C.qlit(z)} true',
+                              impl=impl_flat(lambda: tn.func_get(np.array(X), Af, a, b, z=float(z))),
+                              input=['func_get'] + inp))
+            items.append(dict(coq=f'f_get_full {qlist2(Xq)} {natl(ns)} {tl} {qa} {qb} {C.qlit(z)} true',
+                              impl=impl_flat(lambda: tn.func_get_full(np.array(X), Ad, a, b, z=float(z))),
+                              input=['func_get_full'] + inp))
+    return approx_corr(R, 'box_edges', HEADER_Q, items, q_vals, 1e-9, 3, dist)
+
 
 
 def corr_float(R, tn, rng, th):
@@ -866,7 +1079,121 @@ def chk_general(tn, case):
     return [f for f in fails if f]
 
 
-S_CHECKS = dict(poly=chk_poly, diff=chk_diff, linear=chk_linear, general=chk_general)
+def s_ref_get(case, X, z):
+    """reference for func_get / func_get_full, independent of the model: exact box test on the doubles (Fractions,
+    threshold 1e-99), numpy.polynomial evaluation at the clipped scaled point"""
+    a, b = case['a'], case['b']
+    thr = Fr(1, 10 ** 99)
+    out = []
+    for x in X:
+        if any(Fr(ak) - Fr(xk) > thr or Fr(xk) - Fr(bk) > thr for xk, ak, bk in zip(x, a, b)):
+            out.append(float(z))
+        else:
+            xc = [min(max(float(xk), ak), bk) for xk, ak, bk in zip(x, a, b)]
+            out.append(s_poly(case, xc))
+    return np.array(out)
+
+
+def chk_forms(tn, case):
+    """argument forms: the same call with z / X / a, b / cores in other Python and NumPy types must return the same
+    float64 values (TT and dense)"""
+    fails = []
+    d, ns, a, b = case['d'], case['ns'], case['a'], case['b']
+    Af = s_tt_coef(case)
+    Ad = s_coef(case)
+    X = np.array(case['X'], dtype=float)
+    zv = case['z']
+    exp = s_ref_get(case, X, zv)
+    Ai = [np.array(np.round(G), dtype=np.int64) for G in Af]
+    Adi = np.array(np.round(Ad), dtype=np.int64)
+    ints = all(float(v).is_integer() for v in list(a) + list(b))
+    runs = []
+    for fname, conv in Z_FORMS:
+        runs.append((f'func_get(z as {fname})', lambda c=conv: tn.func_get(X, Af, a, b, z=c(zv)), exp))
+        if d <= 3:
+            runs.append((f'func_get_full(z as {fname})', lambda c=conv: tn.func_get_full(X, Ad, a, b, z=c(zv)), exp))
+        runs.append((f'func_get(single point, z as {fname})', lambda c=conv: [tn.func_get(X[0].tolist(), Af, a, b, z=c(zv))],
+                     exp[:1]))
+    runs.append(('func_get(X as list)', lambda: tn.func_get(X.tolist(), Af, a, b, z=zv), exp))
+    runs.append(('func_get(int64 cores, int z)', lambda: tn.func_get(X, Ai, a, b, z=int(zv)), exp))
+    if d <= 3:
+        runs.append(('func_get_full(int64 array, int z)', lambda: tn.func_get_full(X, Adi, a, b, z=int(zv)), exp))
+    if ints:
+        for fname, fa, fb in ab_forms([int(v) for v in a], [int(v) for v in b]):
+            runs.append((f'func_get(a, b as {fname})', lambda fa=fa, fb=fb: tn.func_get(X, Af, fa, fb, z=zv), exp))
+            if d <= 3:
+                runs.append((f'func_get_full(a, b as {fname})', lambda fa=fa, fb=fb: tn.func_get_full(X, Ad, fa, fb, z=zv), exp))
+    Xi = case.get('Xint')
+    if Xi:
+        Xia = np.array(Xi, dtype=np.int64)
+        expi = s_ref_get(case, Xia.astype(float), zv)
+        runs.append(('func_get(X as int64 array, int z)', lambda: tn.func_get(Xia, Af, a, b, z=int(zv)), expi))
+        if d <= 3:
+            runs.append(('func_get_full(X as int64 array, int z)', lambda: tn.func_get_full(Xia, Ad, a, b, z=int(zv)), expi))
+    for what, f, e in runs:
+        try:
+            v = f()
+        except Exception as ex:  # noqa
+            fails.append(dict(what=f'{what} raised {type(ex).__name__}: {str(ex)[:120]}', input=case))
+            continue
+        va = np.asarray(v)
+        if va.dtype.kind != 'f':
+            fails.append(dict(what=f'{what} returned dtype {va.dtype} (interpolated values truncated to integers)', input=case,
+                              got=va.ravel().tolist()[:10], expected=np.asarray(e).ravel().tolist()[:10]))
+            continue
+        fails.append(s_cmp(f'{what} differs from the polynomial / fill value', case, va.ravel(), e))
+    return [f for f in fails if f]
+
+
+def s_tt_coef(case):
+    """coefficient TT-tensor (one rank per product term) of the polynomial of the case"""
+    d, ns, Rk = case['d'], case['ns'], len(case['coefs'])
+    Y = []
+    for k in range(d):
+        r1, r2 = (1 if k == 0 else Rk), (1 if k == d - 1 else Rk)
+        G = np.zeros((r1, ns[k], r2))
+        for al in range(Rk):
+            G[0 if k == 0 else al, :, 0 if k == d - 1 else al] = case['coefs'][al][k]
+        Y.append(G)
+    return Y
+
+
+def chk_edges(tn, case):
+    """points just outside / on / inside the faces of the box, tiny and huge boxes: func_get and func_get_full give the
+    fill value exactly when a coordinate leaves the box by more than 1e-99, and agree with each other"""
+    fails = []
+    a, b, zv = case['a'], case['b'], case['z']
+    X = np.array([[float.fromhex(v) for v in x] for x in case['Xhex']])
+    Af, Ad = s_tt_coef(case), s_coef(case)
+    exp = s_ref_get(case, X, zv)
+    got = {}
+    for what, f in [('func_get', lambda: tn.func_get(X, Af, a, b, z=zv)),
+                    ('func_get_full', lambda: tn.func_get_full(X, Ad, a, b, z=zv))]:
+        try:
+            got[what] = np.asarray(f(), dtype=float)
+        except Exception as ex:  # noqa
+            fails.append(dict(what=f'{what} raised {type(ex).__name__}: {str(ex)[:120]}', input=case))
+            continue
+        bad = [i for i in range(len(X)) if abs(got[what][i] - exp[i]) > 1e-7 * max(1.0, abs(exp[i]))]
+        if bad:
+            i = bad[0]
+            fails.append(dict(what=f'{what}: wrong value at a point {case["labels"][i]} of the box (fill value iff a '
+                                   f'coordinate is outside by more than 1e-99)', input=dict(case, first_bad=i, x=X[i].tolist()),
+                              got=[float(got[what][j]) for j in bad[:8]], expected=[float(exp[j]) for j in bad[:8]]))
+    if len(got) == 2:
+        bad = [i for i in range(len(X)) if abs(got['func_get'][i] - got['func_get_full'][i]) >
+               1e-7 * max(1.0, abs(got['func_get'][i]))]
+        if bad:
+            i = bad[0]
+            fails.append(dict(what=f'func_get and func_get_full disagree at a point {case["labels"][i]} of the box',
+                              input=dict(case, first_bad=i, x=X[i].tolist()),
+                              got=[float(got['func_get'][j]) for j in bad[:8]],
+                              expected=[float(got['func_get_full'][j]) for j in bad[:8]]))
+    return fails
+
+
+S_CHECKS = dict(poly=chk_poly, diff=chk_diff, linear=chk_linear, general=chk_general, forms=chk_forms,
+                edges=chk_edges)
 
 
 def s_cases(rng, deep):
@@ -890,6 +1217,33 @@ def s_cases(rng, deep):
     c = s_case(rng, 3, [3, 4, 3], 1, 'asym', coef_hi=0)          # the zero polynomial
     c['points'], c['ms'] = s_points(rng, c), [2, 3, 4]
     cases.append(('poly', c))
+    # argument forms (integer boxes so that every form of a, b denotes the same box)
+    for rep in range(8 if deep else 3):
+        d = rng.choice([2, 3, 4]) if rep else 2
+        ns = [rng.randint(2, 6) for _ in range(d)]
+        c = s_case(rng, d, ns, rng.randint(1, 2), 'unit')
+        if rep % 2:
+            lo, hi = rng.randint(-3, 0), rng.randint(1, 4)
+            c['a'], c['b'] = [float(lo)] * d, [float(hi)] * d
+        else:
+            c['a'] = [float(rng.randint(-3, 0)) for _ in range(d)]
+            c['b'] = [float(rng.randint(1, 4)) for _ in range(d)]
+        c['X'] = [x for _, x in s_points(rng, c)]
+        c['Xint'] = [[rng.randint(int(ak) - 1, int(bk) + 1) for ak, bk in zip(c['a'], c['b'])] for _ in range(4)]
+        c['z'] = rng.choice([-1, 2, 0, 7])
+        cases.append(('forms', c))
+    # box edges: tiny distances beyond every face, tiny and huge boxes
+    for rep in range(3 if deep else 1):
+        d = rng.choice([2, 3]) if rep else 2
+        ns = [rng.randint(2, 5) for _ in range(d)]
+        for name, a, b in edge_boxes(rng, d):
+            c = s_case(rng, d, ns, rng.randint(1, 2), 'unit')
+            c['a'], c['b'], c['box'] = a, b, name
+            P = edge_points(rng, a, b)
+            c['labels'] = [lab for lab, _ in P]
+            c['Xhex'] = [[float(v).hex() for v in x] for _, x in P]
+            c['z'] = -7.25
+            cases.append(('edges', c))
     for _ in range(60 if deep else 14):
         d = rng.choice([1, 2, 2, 3, 3, 4])
         ns = [rng.randint(2, 9 if d <= 3 else 5) for _ in range(d)]
